@@ -74,7 +74,8 @@ struct Scratch {
     dir: std::path::PathBuf,
 }
 fn scratch_base() -> std::path::PathBuf {
-    std::env::temp_dir().join(format!("sqv-c16-{}", std::process::id()))
+    // scratch lives under <verif>/.cache (SQV_SCRATCH is set by bin/vlib.py), not under /tmp
+    std::env::var("SQV_SCRATCH").map(std::path::PathBuf::from).unwrap_or_else(|_| std::env::temp_dir()).join(format!("sqv-c16-{}", std::process::id()))
 }
 impl Scratch {
     fn new() -> Scratch {
